@@ -7,7 +7,6 @@ import (
 	"github.com/bartossh/Computantis/src/protobufcompiled"
 	"github.com/bartossh/Computantis/src/spice"
 	"github.com/bartossh/Computantis/src/transaction"
-	"github.com/bartossh/Computantis/src/transformers"
 	"verif.local/harness/sched"
 	"verif.local/harness/world"
 	"verif.local/vsched"
@@ -41,7 +40,7 @@ func c18FullWorld() *c18Full {
 	vsched.Settle()
 	R, A, B := world.Cast("R"), world.Cast("A"), world.Cast("B")
 	propose := func(n *world.FullNode, t transaction.Transaction) {
-		pt, err := transformers.TrxToProtoTrx(t)
+		pt, err := world.TrxToProto(t)
 		if err != nil {
 			panic(err)
 		}
@@ -55,7 +54,7 @@ func c18FullWorld() *c18Full {
 	f.gc = world.MakeTx(A, B.Addr, "fc", []byte("contract"), spice.Melange{}, 9203)
 	propose(f.g, f.gc)
 	// the receiver confirms the contract at the origin: a third vertex, carrying the contract, is gossiped
-	ct, err := transformers.TrxToProtoTrx(world.CounterSign(f.gc, B))
+	ct, err := world.TrxToProto(world.CounterSign(f.gc, B))
 	if err != nil {
 		panic(err)
 	}
@@ -89,13 +88,13 @@ func (f *c18Full) client(role string) {
 	case "gtrx":
 		f.net.Deliver(f.trx[0])
 	case "npropose":
-		pt, _ := transformers.TrxToProtoTrx(world.MakeTx(R, A.Addr, "f3", nil, spice.Melange{Currency: 1}, 9205))
+		pt, _ := world.TrxToProto(world.MakeTx(R, A.Addr, "f3", nil, spice.Melange{Currency: 1}, 9205))
 		f.n1.Notary.Propose(ctx, pt)
 	case "ncontract":
-		pt, _ := transformers.TrxToProtoTrx(f.second)
+		pt, _ := world.TrxToProto(f.second)
 		f.n1.Notary.Propose(ctx, pt)
 	case "nconfirm":
-		pt, _ := transformers.TrxToProtoTrx(world.CounterSign(f.gc, B))
+		pt, _ := world.TrxToProto(world.CounterSign(f.gc, B))
 		f.n1.Notary.Confirm(ctx, pt)
 	case "nbalance":
 		f.n1.Book.CalculateBalance(ctx, A.Addr)
